@@ -36,7 +36,10 @@ def same(a, b, rtol=1e-9, atol=1e-11):
         return False
     if aa.size == 0:
         return True
-    return bool(np.all(np.abs(aa - bb) <= atol + rtol * np.maximum(np.abs(aa), np.abs(bb))))
+    both_nan = np.isnan(aa) & np.isnan(bb)      # e.g. tth beyond the resolution limit: nan in both modules is agreement
+    with np.errstate(invalid='ignore'):
+        ok = np.abs(aa - bb) <= atol + rtol * np.maximum(np.abs(aa), np.abs(bb))
+    return bool(np.all(ok | both_nan))
 
 
 def run_case(rng, i, covered):
